@@ -66,11 +66,13 @@ Theorem C05_resolve_eq_fresh : forall M s l r_warm r_fresh,
 Proof. exact resolve_eq_fresh_history. Qed.
 Print Assumptions C05_resolve_eq_fresh.
 
-(* DESIGN 10 #18, model level: ILLlib_delrows keeps the cache when the deleted rows are marked basic and have
-   pi <= 0 (it would have to be pi = 0).  On the faithful model a state with a certified cache whose row is
-   marked basic with pi = -1 loses the certificate: max -x, x >= 1 (x = 1, value -1); deleting the row leaves
-   "x = 1, value -1" cached for  max -x, x >= 0  whose optimum is 0.  No real input reproduces it (a basic
-   logical has pi = 0 in exact arithmetic): it is monitored by checks/C05.py, not a finding. *)
+(* DESIGN 10 #18: ILLlib_delrows keeps the cache when the deleted rows are marked basic in the stored basis and have
+   pi <= 0 (it would have to be pi = 0, and the stored basis would have to be the basis of the cache).  On the
+   faithful model a state with a certified cache whose row is marked basic with pi = -1 loses the certificate:
+   max -x, x >= 1 (x = 1, value -1); deleting the row leaves "x = 1, value -1" cached for  max -x, x >= 0  whose
+   optimum is 0.  The witness replays on the real library through QSload_basis_array (which makes the stored basis
+   differ from the basis of the cache): notes/repo_patches/demo/delrows_cache_guard.txt, known finding
+   F-C05-delrows-kept-cache. *)
 Definition c05_wit_p : prob := prun 1000 (empty_prob 1000 true) [NewCol (-1) 0 1000 None; AddRow 1 "G" None None [(0%Z, 1)]].
 Definition c05_wit : api :=
   {| a_p := c05_wit_p; a_basis := Some {| ba_c := ["0"%char]; ba_r := ["1"%char] |};
